@@ -26,6 +26,8 @@
 #include "common/verif_common.h"
 
 #include <sys/mman.h>
+#include <signal.h>
+#include <unistd.h>
 #include <algorithm>
 #include <functional>
 #include <map>
@@ -202,6 +204,21 @@ struct Tracer {
 
 inline Tracer& tracer() { static Tracer t; return t; }
 
+// when the process dies (assertion of momo / libstdc++, sanitizer report) say which history was running: the concrete failing input
+inline void reportDeath() {
+	static bool done = false; if (done) return; done = true;
+	Tracer& t = tracer();
+	fprintf(stdout, "\nC20 crash: the process died while running history [%s]; last calls: %s\n", t.suiteName.c_str(), t.lastOps.c_str());
+	fflush(stdout);
+}
+inline void onAbortSignal(int sig) { reportDeath(); signal(sig, SIG_DFL); raise(sig); }
+inline void installCrashReporter() {
+	signal(SIGABRT, onAbortSignal); signal(SIGSEGV, onAbortSignal);
+#if defined(__SANITIZE_ADDRESS__)
+	__sanitizer_set_death_callback(reportDeath);
+#endif
+}
+
 // ------------------------------------------------------------------------------------------------ the reporting shell
 
 template<typename T, typename TCfg>
@@ -277,7 +294,7 @@ public:
 		Act a{ true, id, sizeof(T), alignof(T), n, {} };
 		std::string answers;
 		for (auto& e : evs) if (e.kind == 'M') { answers += fmt(" %zu", e.off); if (viaPool) { a.bufs.push_back(e.off); ++t.buffersGot; } }
-		for (auto& e : evs) if (e.kind == 'F') ++t.buffersBack;
+		for (auto& e : evs) if (e.kind == 'F' && viaPool) ++t.buffersBack;
 		t.acts.push_back(a);
 		if (viaPool) ++t.poolAllocs; else if (n == 1) ++t.rawSingles; else ++t.rawArrays;
 		if (reparam) ++t.reparams;
@@ -331,7 +348,7 @@ public:
 			t.c->fail("C20 deallocate: %s block arena+%lld: GetAllocateCount %zu -> %zu although the call %s go to the pool", t.suiteName.c_str(), id, acBefore, acAfter, toPool ? "must" : "must not");
 		t.blocks.erase(id);
 		Act a{ false, id, sizeof(T), alignof(T), n, {} };
-		for (auto& e : evs) if (e.kind == 'F') { if (toPool) a.bufs.push_back(e.off); ++t.buffersBack; }
+		for (auto& e : evs) if (e.kind == 'F' && toPool) { a.bufs.push_back(e.off); ++t.buffersBack; }
 		if (toPool && evs.size() > 1) ++t.cacheFlushes;
 		t.acts.push_back(a);
 		t.line(fmt("dealloc %d %zu %zu %zu %lld", pid, sizeof(T), alignof(T), n, id),
@@ -401,6 +418,7 @@ private:
 		Tracer& t = tracer(); Arena& ar = arena();
 		t.poolIds.erase(pl);
 		++t.poolDeaths;
+		for (auto& e : evs) if (e.kind == 'F' && e.size != sizeof(typename TCfg::ControlBlock)) ++t.buffersBack;
 		for (auto& e : evs) if (e.kind == 'M') t.c->fail("C20 destructor: %s the dying pool %d allocated", t.suiteName.c_str(), pid);
 		// last owner gone: nothing requested on behalf of this pool may be outstanding
 		size_t left = ar.countOf(pid);
